@@ -578,6 +578,27 @@ func (h *harness) generate(n int) {
 		}
 		h.flush()
 	}
+	// the strconv models on their own: corpus, grammar strings of the numeric types, mutations
+	for _, s := range append(append([]string{}, floatCorpus...), intCorpus...) {
+		h.strconvCase(s)
+		h.strconvCase(string(h.r.Mutate([]byte(s), numHot)))
+	}
+	for i := 0; i < n; i++ {
+		var c gcase
+		if h.r.Bool() {
+			c = genFloat(h.r, typeByName(vh.Pick(h.r, []string{"double", "float", "decimal"})))
+		} else {
+			c = genInt(h.r, typeByName(vh.Pick(h.r, []string{"integer", "byte", "unsignedLong", "short", "unsignedInt"})))
+		}
+		if h.r.Chance(50) {
+			c.s = string(h.r.Mutate([]byte(c.s), numHot))
+		}
+		h.strconvCase(c.s)
+		if len(h.items) > 2000000 {
+			h.flush()
+		}
+	}
+	h.flush()
 	// white space collapse on its own
 	for i := 0; i < n; i++ {
 		var sb strings.Builder
